@@ -150,6 +150,10 @@ class State:
         return s
 
 
+def strip_generic(t):
+    return t.strip()
+
+
 class Enumerator:
     """Enumerate acyclic paths of `fn` from block 0 to a return.
     init_disc: {path_key: variant} initial discriminant constraints (e.g. 'arg:2' -> 'Parentheses').
@@ -169,6 +173,59 @@ class Enumerator:
         self.prune = prune
         self.summaries = summaries
         self.npaths = 0
+
+    def _closure_const_bool(self, st, bi, operand):
+        """value of `|..| captured_flag` at this point of the path, or None"""
+        if is_const(operand):
+            return None
+        cl = op_place(operand)["l"]
+        agg = None
+        for s in reversed(self.fn.blocks[bi]["st"]):
+            if s["k"] == "assign" and s["dst"]["l"] == cl and not s["dst"].get("p") and s["rv"]["k"] == "agg" and \
+                    "closure" in s["rv"]:
+                agg = s["rv"]
+                break
+        if agg is None:
+            return None
+        g = self.fn.prog.fn(self.fn.crate, agg["closure"])
+        if g is None or strip_generic(g.locals[0]) != "bool":
+            return None
+        blocks = [b for b in g.blocks if not b["cleanup"]]
+        if len(blocks) != 1 or blocks[0]["term"]["k"] != "return":
+            return None
+        refs = {}
+        idx = None
+        for s in blocks[0]["st"]:
+            if s["k"] != "assign" or s["rv"]["k"] != "use" or is_const(s["rv"]["o"]):
+                return None
+            pl = op_place(s["rv"]["o"])
+            pr = pl.get("p", [])
+            if pl["l"] == 1 and len(pr) == 1 and isinstance(pr[0], dict) and "f" in pr[0]:
+                refs[s["dst"]["l"]] = pr[0]["f"]                      # _3 = _1.k
+            elif s["dst"]["l"] == 0 and pr == ["*"] and pl["l"] in refs:
+                idx = refs[pl["l"]]                                   # _0 = *_3
+            elif s["dst"]["l"] == 0 and pl["l"] == 1 and len(pr) == 2 and pr[1] == "*" and isinstance(pr[0], dict):
+                idx = pr[0].get("f")                                  # _0 = *(_1.k)
+            else:
+                return None
+        try:
+            k = int(idx)
+        except (TypeError, ValueError):
+            return None
+        if k >= len(agg["ops"]):
+            return None
+        v = self.val_of(st, agg["ops"][k])
+        if v is None and not is_const(agg["ops"][k]):
+            # the capture is `&flag`: look through the reference taken in this block
+            rl = op_place(agg["ops"][k])["l"]
+            for s in reversed(self.fn.blocks[bi]["st"]):
+                if s["k"] == "assign" and s["dst"]["l"] == rl and not s["dst"].get("p") and s["rv"]["k"] == "ref" and \
+                        not s["rv"]["p"].get("p"):
+                    v = st.vals.get(s["rv"]["p"]["l"])
+                    break
+        if v and v[0] == "const" and isinstance(v[1], bool):
+            return v[1]
+        return None
 
     # ---- abstract values -------------------------------------------------
     def val_of(self, st, o):
@@ -331,6 +388,23 @@ class Enumerator:
                     if isinstance(side, str) and side in ("Ok", "Err", "Some", "None"):
                         if cn.endswith("Try>::branch"):
                             side = {"Ok": "Continue", "Some": "Continue", "Err": "Break", "None": "Break"}[side]
+                        st.disc[f"call:{bi}"] = side
+                        st.hist.append((f"call:{bi}", side))
+                if re.search(r"Option::<.*>::filter$", cn) and len(t["args"]) == 2:
+                    # `opt.filter(|_| flag)`: a closure that only returns a captured boolean known on this path
+                    cbv = self._closure_const_bool(st, bi, t["args"][1])
+                    av = self.val_of(st, t["args"][0]) if not is_const(t["args"][0]) else None
+                    side_in = None
+                    if av and av[0] in ("agg", "variant") and av[2] in ("Some", "None"):
+                        side_in = av[2]
+                    elif av and av[0] == "callres" and isinstance(st.disc.get(f"call:{av[1]}"), str):
+                        side_in = st.disc.get(f"call:{av[1]}")
+                    side = None
+                    if side_in == "None" or cbv is False:
+                        side = "None"
+                    elif side_in == "Some" and cbv is True:
+                        side = "Some"
+                    if side:
                         st.disc[f"call:{bi}"] = side
                         st.hist.append((f"call:{bi}", side))
                 if cn.endswith("FromResidual>::from_residual") or re.search(r"FromResidual<.*>>::from_residual$", cn):
